@@ -289,6 +289,15 @@ def run(ctx, chk):
         if key in seen:
             continue
         seen.add(key)
+        if s["kind"] == "str-sliced-at-displaced-offset:boundary-consulted":
+            chk.undecided_("C15.R2", f"{short}:displaced-slice", "a str is sliced at a displaced byte offset in a function that consults character boundaries")
+            continue
+        if s["kind"] == "str-sliced-at-displaced-offset":
+            chk.violation("C15.R2", short, s["kind"],
+                          f"{s['fn']} slices a str of input text at a byte offset that was moved by a constant (position +/- k, k >= 2, or halved): the result need not be "
+                          f"a character boundary, and slicing inside a UTF-8 sequence panics", s["where"],
+                          witness="a line whose byte at that distance is the second byte of `é`")
+            continue
         what = {"str-sliced-by-char-index": f"slices a str with a bound that is a character count ({n} site(s))",
                 "mixed-comparison": "compares a character count with a byte offset",
                 "mixed-subtraction": "subtracts a byte offset and a character count"}[s["kind"]]
